@@ -44,3 +44,20 @@ impl<K: Ord + vstd::std_specs::cmp::OrdSpec, V> BTreeMap<K, V> {
         ensures r is None == (self@.dom() =~= Set::<K>::empty()),
                 r matches Some(p) ==> self@.contains_key(*p.0) && *p.1 == self@[*p.0] && forall|k: K| #[trigger] self@.contains_key(k) ==> !(k.cmp_spec(p.0) is Greater) { unimplemented!() }
 }
+// Entry API, `map.entry(k).or_insert(v);` as a statement (std documentation: inserts v if the key is absent, else leaves the map
+// unchanged). The map after the statement is an uninterpreted function of the entry object that the consuming call resolves; an
+// entry that is dropped unused leaves it unconstrained (a weaker, still sound, fact). or_insert returns nothing here, so code that
+// goes on to write through the returned reference does not type-check (undecided), rather than being mis-specified.
+#[verifier::external_body] #[verifier::reject_recursive_types(K)] #[verifier::reject_recursive_types(V)]
+pub struct KvxEntry<'a, K, V> { p: core::marker::PhantomData<&'a mut (K, V)> }
+impl<'a, K, V> KvxEntry<'a, K, V> {
+    pub uninterp spec fn key(&self) -> K;
+    pub uninterp spec fn before(&self) -> Map<K, V>;
+    pub uninterp spec fn after(&self) -> Map<K, V>;
+    #[verifier::external_body] pub fn or_insert(self, v: V)
+        ensures self.after() == (if self.before().contains_key(self.key()) { self.before() } else { self.before().insert(self.key(), v) }) { unimplemented!() }
+}
+impl<K, V> BTreeMap<K, V> {
+    #[verifier::external_body] pub fn entry(&mut self, k: K) -> (r: KvxEntry<'_, K, V>)
+        ensures r.key() == k, r.before() == old(self)@, final(self)@ == r.after() { unimplemented!() }
+}
